@@ -843,17 +843,17 @@ def oracle(run):
 
 # which property an oracle signature belongs to (run_lock_scenarios reports a failure to `prop` only if listed)
 SIG_PROPS = {
-    "hang": ("C01", "C04"), "deadlock": ("C01", "C04"), "stuck": ("C01", "C04"), "no-outcome": ("C01", "C04"),
-    "wrong-result": ("C01",), "executed-twice": ("C01",), "not-executed-once": ("C01",), "spurious-raise": ("C01", "C04"),
+    "hang": ("C01", "C04", "C16"), "deadlock": ("C01", "C04", "C16"), "stuck": ("C01", "C04", "C16"), "no-outcome": ("C01", "C04", "C16"),
+    "wrong-result": ("C01", "C16"), "executed-twice": ("C01", "C16"), "not-executed-once": ("C01", "C16"), "spurious-raise": ("C01", "C04", "C16"),
     "error-swallowed:iterator": ("C04",), "error-swallowed:task": ("C04",), "wrong-exception": ("C04",),
-    "callback-exception": ("C04",), "stale-dispatch-new": ("C04",),
+    "callback-exception": ("C04",), "stale-dispatch-new": ("C04", "C16"),
     "iterator-reentered": ("C09",), "pull-without-lock": ("C09",), "pull-after-abort": ("C09",),
 }
 
 
 def _sig_for(prop, sig):
     props = SIG_PROPS.get(sig)
-    return props is None or prop not in ("C01", "C04", "C09") or prop in props
+    return props is None or prop not in ("C01", "C04", "C09", "C16") or prop in props
 
 
 # ---------------------------------------------------------------- corpus (always run first)
